@@ -761,6 +761,46 @@ func builtinIntrinsics() map[string]Intrinsic {
 		}
 		return TupleV{m.ctx.BV(uint64(v), 64), IfaceV{}}
 	}
+	// strings functions over concrete strings run natively (symbolic strings take the SSA bodies)
+	strSlice := func(parts []string) Value {
+		out := make([]Value, len(parts))
+		for i, p := range parts {
+			out[i] = p
+		}
+		return SliceV{A: out}
+	}
+	concOr := func(name string, f func(m *Machine, s []string, a []Value) Value, nstr int) {
+		prev := I[name]
+		I[name] = func(m *Machine, fn *ssa.Function, a []Value) Value {
+			ss := make([]string, nstr)
+			for i := 0; i < nstr; i++ {
+				s, ok := concStr(a[i])
+				if !ok {
+					if prev != nil {
+						return prev(m, fn, a)
+					}
+					return m.runFunction(fn, a, nil)
+				}
+				ss[i] = s
+			}
+			return f(m, ss, a)
+		}
+	}
+	concOr("strings.Split", func(m *Machine, s []string, a []Value) Value { return strSlice(strings.Split(s[0], s[1])) }, 2)
+	concOr("strings.SplitN", func(m *Machine, s []string, a []Value) Value {
+		return strSlice(strings.SplitN(s[0], s[1], m.concInt(a[2], "SplitN n")))
+	}, 2)
+	concOr("strings.Count", func(m *Machine, s []string, a []Value) Value {
+		return m.ctx.BV(uint64(strings.Count(s[0], s[1])), 64)
+	}, 2)
+	concOr("strings.Index", func(m *Machine, s []string, a []Value) Value {
+		return m.ctx.BV(uint64(int64(strings.Index(s[0], s[1]))), 64)
+	}, 2)
+	concOr("strings.Contains", func(m *Machine, s []string, a []Value) Value { return m.ctx.Bool(strings.Contains(s[0], s[1])) }, 2)
+	concOr("strings.TrimSpace", func(m *Machine, s []string, a []Value) Value { return strings.TrimSpace(s[0]) }, 1)
+	concOr("strings.ToUpper", func(m *Machine, s []string, a []Value) Value { return strings.ToUpper(s[0]) }, 1)
+	concOr("strings.ToLower", func(m *Machine, s []string, a []Value) Value { return strings.ToLower(s[0]) }, 1)
+	concOr("strings.EqualFold", func(m *Machine, s []string, a []Value) Value { return m.ctx.Bool(strings.EqualFold(s[0], s[1])) }, 2)
 	// sort.Slice / sort.SliceStable go through reflect's swapper; modelled as an insertion sort that
 	// calls the real less closure (one admissible behaviour of the unstable sort: ties keep order).
 	I["sort.Slice"] = func(m *Machine, fn *ssa.Function, a []Value) Value {
@@ -926,12 +966,21 @@ func (m *Machine) errUnwrap(e Value) Value {
 		st := (*m.ptrOf(iv.V)).(StructV)
 		return st[1]
 	}
-	if f := m.E.Prog.LookupMethod(iv.T, nil, "Unwrap"); f != nil && f.Signature.Results().Len() == 1 {
+	if f := m.exportedMethod(iv.T, "Unwrap"); f != nil && f.Signature.Results().Len() == 1 {
 		if _, isIface := f.Signature.Results().At(0).Type().Underlying().(*types.Interface); isIface {
 			return m.callFn(f, []Value{iv.V}, nil)
 		}
 	}
 	return IfaceV{}
+}
+
+// exportedMethod finds an exported method of a dynamic type (nil when it has none).
+func (m *Machine) exportedMethod(t types.Type, name string) *ssa.Function {
+	sel := m.E.Prog.MethodSets.MethodSet(t).Lookup(nil, name)
+	if sel == nil {
+		return nil
+	}
+	return m.E.Prog.MethodValue(sel)
 }
 
 func (m *Machine) errorsIs(e, target Value) *smt.Term {
@@ -949,6 +998,12 @@ func (m *Machine) errorsIs(e, target Value) *smt.Term {
 				if m.branch(eq) {
 					return m.ctx.True
 				}
+			}
+		}
+		// an error may declare itself equivalent to a target: func (e T) Is(target error) bool
+		if f := m.exportedMethod(iv.T, "Is"); f != nil && f.Signature.Params().Len() == 1 && f.Signature.Results().Len() == 1 {
+			if r, ok := m.callFn(f, []Value{iv.V, target}, nil).(*smt.Term); ok && m.branch(r) {
+				return m.ctx.True
 			}
 		}
 		cur = m.errUnwrap(cur)
